@@ -336,6 +336,7 @@ func C06(c *runner.Cfg) *report.Result {
 	slot.Done()
 	if !c.Abort.Load() {
 		endingsUnderBackPressure(c, res, logger)
+		batchedEndings(c, res)
 	}
 	// log monitor
 	for _, r := range logger.Records() {
